@@ -291,7 +291,8 @@ pub fn run(opts: &Opts) -> i32 {
     }
   } }
   // (3) random strings and lists of patterns
-  let n_rand = opts.num("random", if thorough { 4_000_000 } else { 60_000 });
+  let n_rand = opts.num("random", if thorough { 30_000_000 } else { 600_000 });
+  let mut prev: Vec<String> = vec![];
   for _ in 0..n_rand {
     // mostly 1-4 patterns; now and then a long list (a line of several kilobytes)
     let n_pat = match rng.below(200) { 0 => rng.range(30, 150), 1 => rng.range(5, 29), x if x < 120 => 1, x if x < 160 => 2, x if x < 180 => 3, _ => 4 };
@@ -320,6 +321,23 @@ pub fn run(opts: &Opts) -> i32 {
       pats.retain(|p| !p.is_empty());
       if pats.is_empty() { pats.push("$".to_string()); }
     }
+    // a share of the cases: the previous list again with one small change (a character replaced, inserted or dropped,
+    // two patterns swapped, one repeated): consecutive related requests to the same code
+    if !prev.is_empty() && rng.chance(1, 4) {
+      pats = prev.clone();
+      let i = rng.below(pats.len());
+      let mut cs: Vec<char> = pats[i].chars().collect();
+      match rng.below(5) {
+        0 => { if !cs.is_empty() { let j = rng.below(cs.len()); cs[j] = *rng.pick(&sc); } }
+        1 => { let j = rng.below(cs.len() + 1); cs.insert(j, *rng.pick(&sc)); }
+        2 => { if cs.len() > 1 { let j = rng.below(cs.len()); cs.remove(j); } }
+        3 => { let j = rng.below(pats.len()); pats.swap(i, j); cs = pats[i].chars().collect(); }
+        _ => { let dup = pats[i].clone(); pats.push(dup); }
+      }
+      pats[i] = cs.into_iter().collect();
+      out.count("lists_derived_from_the_previous_one");
+    }
+    prev = pats.clone();
     out.nontrivial(hash64(&pats));
     if out.wants_sample() && rng.chance(1, 2000) {
       let refs: Vec<&str> = pats.iter().map(|s| s.as_str()).collect();
@@ -327,6 +345,64 @@ pub fn run(opts: &Opts) -> i32 {
       out.sample(json!({ "patterns": pats, "exec_start": find_exec_start(&unit).unwrap_or_default(), "decoded": match decode(&unit) { Decoded::Argv(a) => json!(show(&a)), Decoded::Invalid(w) => json!(format!("invalid: {}", w)) } }));
     }
     test(&mut out, pats, "random_lists");
+  }
+  // (5) patterns that spell out, literally, the escape sequences of the target syntax (what the escaper itself emits
+  //     for other inputs, and everything else systemd would unescape): \a..\v, \s, \xHH for every HH, \NNN octal,
+  //     \uHHHH, \UHHHHHHHH, %<letter>, $<letter>, ${...}; alone, embedded and behind one more backslash
+  {
+    let mut lits: Vec<String> = vec![];
+    for c in "abfnrtvs\\\"'".chars() { lits.push(format!("\\{}", c)); }
+    for h in 0..256u32 { lits.push(format!("\\x{:02x}", h)); lits.push(format!("\\x{:02X}", h)); lits.push(format!("\\{:03o}", h)); lits.push(format!("\\u{:04x}", h)); }
+    for h in [0x100u32, 0x7ff, 0x800, 0xd7ff, 0xd800, 0xdfff, 0xe000, 0xfffd, 0xffff] { lits.push(format!("\\u{:04x}", h)); lits.push(format!("\\U{:08x}", h)); }
+    for h in [0u32, 0x10000, 0x10ffff, 0x110000, 0xffffffff] { lits.push(format!("\\U{:08x}", h)); }
+    for c in ('a'..='z').chain('A'..='Z').chain("%$_0{".chars()) { lits.push(format!("%{}", c)); lits.push(format!("${}", c)); lits.push(format!("${{{}}}", c)); }
+    for (i, l) in lits.iter().enumerate() {
+      if (i as u64) % opts.nshards != opts.shard { continue; }
+      if aux && i % 17 != 0 { continue; }
+      out.count("literal_escape_spellings");
+      out.nontrivial(hash64(&(l, 5u8)));
+      test(&mut out, vec![l.clone()], "escape_spelling_patterns");
+      test(&mut out, vec![format!("a{}b", l)], "escape_spelling_patterns");
+      test(&mut out, vec![format!("\\{}", l)], "escape_spelling_patterns");
+      test(&mut out, vec![format!("{} {}", l, l), l.clone()], "escape_spelling_patterns");
+    }
+  }
+  // (6) every string of four (thorough: five) characters over the characters escape sequences are made of
+  {
+    let al: Vec<char> = "\\xu01af%${}'\" ".chars().collect();
+    let n = if thorough { 5 } else { 4 };
+    let total = (al.len() as u64).pow(n);
+    let mut i = opts.shard;
+    while i < total {
+      if !(aux && i % 101 != 0) {
+        let mut x = i; let mut p = String::new();
+        for _ in 0..n { p.push(al[(x % al.len() as u64) as usize]); x /= al.len() as u64; }
+        out.nontrivial(hash64(&(&p, 6u8)));
+        test(&mut out, vec![p], "escape_alphabet_ngrams");
+      }
+      i += opts.nshards;
+    }
+  }
+  // (4) patterns that coincide with a name the implementation itself uses: the words of the unit text it writes for a
+  //     harmless list, and the dictionary mined from the string literals of its sources (template fields, format
+  //     placeholders, option names, paths); alone, embedded in a name, between wildcards and in pairs
+  {
+    let mut dict: Vec<String> = crate::dict::tokens(&[]);
+    let unit = crate::udev_utils::verif::build_service_text(&["plain"]);
+    for w in unit.split(|c: char| c.is_whitespace() || c == '=') { if !w.is_empty() && !dict.iter().any(|d| d == w) { dict.push(w.to_string()); } }
+    out.notes.insert("dictionary_size".to_string(), json!(dict.len()));
+    for (i, t) in dict.iter().enumerate() {
+      if (i as u64) % opts.nshards != opts.shard { continue; }
+      if aux && i % 9 != 0 { continue; }
+      out.count("dictionary_tokens");
+      out.nontrivial(hash64(&(t, 4u8)));
+      test(&mut out, vec![t.clone()], "dictionary_patterns");
+      test(&mut out, vec![format!("ACME {} Keypad", t)], "dictionary_patterns");
+      test(&mut out, vec![format!("*{}*", t)], "dictionary_patterns");
+      let other = rng.pick(&dict).clone();
+      test(&mut out, vec![other.clone(), t.clone()], "dictionary_patterns");
+      test(&mut out, vec![format!("{}{}", t, other)], "dictionary_patterns");
+    }
   }
   // no patterns at all: the surrounding arguments must still be intact
   test(&mut out, vec![], "empty_list");
